@@ -4,9 +4,12 @@
  * property's oracle judges the observation, so that no finding masks another. */
 #define _GNU_SOURCE
 #include "fmt.h"
+#include "wraps.h"
 #include <time.h>
 #include <errno.h>
 #include <locale.h>
+#include <fcntl.h>
+#include <unistd.h>
 #include "safe_lib.h"
 
 enum { XF_ASCTIME, XF_CTIME, XF_STRERROR, XF_GETENV, XF_GETS, XF_GMTIME, XF_LOCALTIME, XF_PRINTF, XF_WCSFC, XF_WCSNORM, XF_TOWFC, XF_NORMSTEP, XF_FOPEN, XF_FREOPEN, XF_N };
@@ -83,12 +86,16 @@ static int gen_x(cs_t *cs, void *k, const runcfg_t *cfg) {
         if (c->dmax < 0) c->dmax = 0;
         c->b = (int)cs_range(cs, 0, 3);                  /* 0/1 set, 2 unset, 3 empty value */
         c->c = (int)cs_range(cs, 0, 1);                  /* len out-param NULL */
+        if (cfg->phase && cs_range(cs, 0, 7) == 0) {     /* values around and above RSIZE_MAX_STR: the length query has no such limit */
+            c->a = (int)cs_range(cs, 4090, 4200);
+            c->dmax = cs_range(cs, 0, 2) ? 0 : (int)cs_range(cs, 4090, 4096);
+        }
         break;
     case XF_GETS:
         c->dmax = (int)cs_range(cs, 0, 40);
         c->a = c->dmax + (int)cs_range(cs, -3, 4);       /* line length */
         if (c->a < 0) c->a = 0;
-        c->b = (int)cs_range(cs, 0, 3);                  /* 0 newline terminated, 1 EOF terminated, 2 empty input, 3 the line starts with a NUL byte and a '\n' sits in front of dest */
+        c->b = (int)cs_range(cs, 0, 4);                  /* 0 newline terminated, 1 EOF terminated, 2 empty input, 3 the line starts with a NUL byte and a '\n' sits in front of dest, 4 stdin fails with a read error */
         break;
     case XF_GMTIME: case XF_LOCALTIME:
         c->a = (int)cs_range(cs, 0, 15);
@@ -177,6 +184,7 @@ static void run_x(const xcase_t *c, int guard) {
     size_t i;
     int rc = 0;
     memset(&O, 0, offsetof(xobs_t, before));
+    g_globstate_calls = 0; g_globstate_sym = NULL;
     O.canary_off = LONG_MIN; O.h_code = -1; O.w = 1; O.has_ref = 0; O.ref_ok = 1; O.why[0] = 0;
     ar_reset();
     set_str_constraint_handler_s(xh); set_mem_constraint_handler_s(xh);
@@ -264,17 +272,20 @@ static void run_x(const xcase_t *c, int guard) {
             break;
         }
         case XF_GETENV: {
-            static char val[64];
+            static char val[4300];
             size_t *lenp = (size_t *)(void *)ar_alloc(guard, PL_END, sizeof(size_t), 0);
+            size_t vl;
             *lenp = 0x5a5a5a5a;
-            for (i = 0; i < (size_t)c->a && i < 60; i++) val[i] = (char)('a' + i % 26);
+            for (i = 0; i < (size_t)c->a && i < 4290; i++) val[i] = (char)('a' + i % 26);
             val[i] = 0;
+            vl = c->b == 3 ? 0 : i;
             if (c->b == 2) unsetenv("VERIF_X_ENV"); else setenv("VERIF_X_ENV", c->b == 3 ? "" : val, 1);
             O.is_string = 1; O.usable = !c->dest_null && c->dmax > 0 && c->dmax <= 4096; O.slack_promised = 1;
             AR_GUARDED(rc = _getenv_s_chk(c->c ? NULL : lenp, c->dest_null ? NULL : (char *)dest, (rsize_t)c->dmax, c->src_null ? NULL : "VERIF_X_ENV", bos));
-            if (c->b != 2 && !c->src_null) { O.has_ref = 1; snprintf(O.ref, sizeof O.ref, "%s", c->b == 3 ? "" : val); O.ref_len = strlen(O.ref); }
+            if (c->b != 2 && !c->src_null && vl < sizeof O.ref) { O.has_ref = 1; snprintf(O.ref, sizeof O.ref, "%s", c->b == 3 ? "" : val); O.ref_len = strlen(O.ref); }
             if (rc == -1 && c->b == 2) rc = 0; /* "not set" is a plain status, not a violation */
-            if (!c->c && rc == 0 && O.has_ref && *lenp != O.ref_len && !g_ar_fault.faulted) { O.ref_ok = 0; snprintf(O.why, sizeof O.why, "*len=%zu, value length %zu", *lenp, O.ref_len); }
+            if (!c->c && rc == 0 && c->b != 2 && !c->src_null && *lenp != vl && !g_ar_fault.faulted) { O.ref_ok = 0; snprintf(O.why, sizeof O.why, "*len=%zu, value length %zu", *lenp, vl); }
+            if (rc == 0 && c->b != 2 && !c->src_null && !c->dest_null && c->dmax > 0 && vl + 1 > (size_t)c->dmax && !g_ar_fault.faulted) { O.ref_ok = 0; snprintf(O.why, sizeof O.why, "value of %zu characters reported as stored in dmax=%d", vl, c->dmax); }
             break;
         }
         case XF_GETS: {
@@ -293,6 +304,10 @@ static void run_x(const xcase_t *c, int guard) {
                 dest = pre + 1; O.dest = dest;
                 in = fmemopen(line, L + 2, "r");
                 line[0] = 0;
+            } else if (c->b == 4) { /* a directory opened for reading: every read fails with EISDIR, which is not end-of-file */
+                int fd = open("/", O_RDONLY | O_DIRECTORY);
+                in = fd >= 0 ? fdopen(fd, "r") : NULL;
+                if (!in) { if (fd >= 0) close(fd); in = fmemopen(line, 1, "r"); }
             } else
             in = fmemopen(line, strlen(line) ? strlen(line) : 1, "r");
             if (c->b == 2) { int ch; while ((ch = fgetc(in)) != EOF) {} }
@@ -304,7 +319,7 @@ static void run_x(const xcase_t *c, int guard) {
             if (!g_ar_fault.faulted) fclose(in);
             rc = ret ? 0 : (errno ? errno : 0);
             if (pre && !g_ar_fault.faulted && pre[0] != '\n') O.canary_off = -1;
-            if (ret && c->b != 2 && c->b != 3) { O.has_ref = 1; memcpy(O.ref, line, L); O.ref[L] = 0; O.ref_len = L; }
+            if (ret && c->b != 2 && c->b != 3 && c->b != 4) { O.has_ref = 1; memcpy(O.ref, line, L); O.ref[L] = 0; O.ref_len = L; }
             if (!ret && O.h_count == 0) rc = 1; /* plain EOF: a failure indication (NULL) without any constraint violation */
             break;
         }
@@ -394,7 +409,7 @@ static const char *x_class(const xcase_t *c) {
     if (c->src_null && (c->fn == XF_ASCTIME || c->fn == XF_CTIME || c->fn == XF_GETENV || c->fn == XF_GMTIME || c->fn == XF_LOCALTIME || c->fn >= XF_WCSFC)) return "null-src";
     if (c->fn == XF_WCSFC && O.loc) { static char b[40]; snprintf(b, sizeof b, "%s:locale-%.2s", c->dmax < 5 ? "dmax<5" : "dmax>=5", XLOC[O.loc & 3]); return b; }
     if (c->fn >= XF_WCSFC) return c->dmax < 5 ? "dmax<5" : "dmax>=5";
-    if (c->fn == XF_GETS) return c->b == 3 ? "line-starts-with-nul" : c->b == 2 ? "empty-input" : (c->a + 1 > c->dmax ? "line-too-long" : (c->a + 1 == c->dmax ? "line-exact-fit" : "line-fits"));
+    if (c->fn == XF_GETS) return c->b == 4 ? "read-error" : c->b == 3 ? "line-starts-with-nul" : c->b == 2 ? "empty-input" : (c->a + 1 > c->dmax ? "line-too-long" : (c->a + 1 == c->dmax ? "line-exact-fit" : "line-fits"));
     if (c->fn == XF_ASCTIME || c->fn == XF_CTIME) return c->dmax < 26 ? "dmax<26" : (c->dmax < 120 ? "dmax<120" : "dmax>=120");
     if (c->fn == XF_GETENV) return c->b == 2 ? "unset" : (c->a + 1 > c->dmax ? "value-too-long" : "value-fits");
     return "args";
@@ -448,6 +463,12 @@ static void exec_x(const void *k, res_t *r, int prop, const runcfg_t *cfg) {
         }
         return;
     case 5:
+        if (g_globstate_calls) { /* C12: the call used process-wide state of libc */
+            r->nontrivial = 1;
+            RES_VIOL(r, "C12:%s:process-wide-state:%s", fn, g_globstate_sym ? g_globstate_sym : "?");
+            RES_DETAIL(r, "%d call(s) of %s (and possibly others) were made inside the library call: state shared by every thread of the process", g_globstate_calls, g_globstate_sym ? g_globstate_sym : "?");
+            return;
+        }
         r->nontrivial = O.failed || O.h_count > 0;
         if (O.h_count > 1 && c->fn == XF_PRINTF) { RES_VIOL(r, "C05:%s:handler-invoked-%d-times:last-code-%d", fn, O.h_count, O.h_code); RES_DETAIL(r, "handler ran %d times, last code %d, returned %ld", O.h_count, O.h_code, O.code); return; }
         if (O.h_count > 1) { RES_VIOL(r, "C05:%s:handler-invoked-%d-times:%s", fn, O.h_count, x_class(c)); RES_DETAIL(r, "handler ran %d times, last code %d, returned %ld", O.h_count, O.h_code, O.code); return; }
